@@ -186,7 +186,9 @@ func runC17(cfg config) {
 		}},
 	}
 	joinIdx := len(defs) - 1
-	argForms := []struct{ coq, src string }{{"AInteger", "7"}, {"AString", "'s'"}, {"AOtherVal", "true"}, {"AEmpty", "{}"}, {"AMulti", "%m"}}
+	argForms := []struct{ coq, src string }{{"AInteger", "7"}, {"AString", "'s'"}, {"AOtherVal", "true"}, {"AEmpty", "{}"}, {"AMulti", "%m"},
+		// a FHIR primitive element: neither a System Integer nor a System String; an `any` parameter receives the element itself
+		{"AOtherVal", "%context.name.first().family"}}
 	calls := []struct {
 		name string
 		id   uint64
@@ -273,7 +275,11 @@ func runC17(cfg config) {
 						case "AString":
 							ok = last.args[i] == any(system.String("s"))
 						case "AOtherVal":
-							ok = last.args[i] == any(system.Boolean(true))
+							if strings.Contains(argForms[a].src, "family") {
+								ok = last.args[i] == any(patient.Name[0].Family)
+							} else {
+								ok = last.args[i] == any(system.Boolean(true))
+							}
 						}
 					}
 					// and its result is passed through unchanged
